@@ -508,6 +508,29 @@ impl<T: Types> RaftLog<T> {
         Ok(self.wal.last_segment())
     }
 
+    /// Read-only view of the payload cache's resident set: `(log id, payload
+    /// size)` in key order. For the simulation harness only.
+    #[cfg(feature = "verif-hooks")]
+    pub fn verif_cache_resident(&self) -> Vec<(T::LogId, u64)> {
+        let cache = self.state_machine.payload_cache.read().unwrap();
+        cache
+            .cache
+            .iter()
+            .map(|(k, v)| (k.clone(), T::payload_size(v)))
+            .collect()
+    }
+
+    /// Read-only view of the log index: `(index, log id, chunk id, record
+    /// segment)` in index order. For the simulation harness only.
+    #[cfg(feature = "verif-hooks")]
+    pub fn verif_index(&self) -> Vec<(u64, T::LogId, ChunkId, Segment)> {
+        self.state_machine
+            .log
+            .iter()
+            .map(|(i, d)| (*i, d.log_id.clone(), d.chunk_id, d.record_segment))
+            .collect()
+    }
+
     /// Returns the current size of the log on disk in bytes.
     ///
     /// This includes all closed chunks and the open chunk, measuring from the
